@@ -9,7 +9,7 @@ Bound == 8000                      \* "bounded time": typical is < 100 ms after 
 After(o) == IF o.at < 0 THEN 0 ELSE o.at
 
 TLE(o)     == o.r = "verdict" /\ o.status = 2
-Genuine(o) == o.prog = "quick" /\ o.r = "verdict" /\ o.status = 7 /\ o.code = 7
+Genuine(o) == o.prog = "quick" /\ o.r = "verdict" /\ o.status = 7 /\ o.code = 7     \* (a soft ban lets the program go on)
 \* cancellation: returns in bounded time, TLE or the genuine verdict, never a runner error or a policy
 \* violation, the program is gone
 JudgeCancel(o) ==
